@@ -427,6 +427,20 @@ def k_small(ctx: Any, strings: list[str]) -> None:
                 ctx.mismatch({**case, "fn": name}, g, w, f"{name}: model vs implementation")
 
 
+def k_exhaustive(ctx: Any, maxlen: int) -> None:
+    """Every string of length <= maxlen over the structural alphabet , ; = " \\ space b y  (keys `by`, `b`, `y`...)."""
+    import itertools
+
+    alphabet = [",", ";", "=", '"', "\\", " ", "b", "y"]
+    items = []
+    for n in range(maxlen + 1):
+        for tup in itertools.product(alphabet, repeat=n):
+            s = "".join(tup)
+            items.append({"kind": "k", "hdr": s, "sel": "last" if len(items) % 2 else "first", "validate": len(items) % 3 == 0, "src": "exhaustive"})
+    k_batch(ctx, items)
+    ctx.note("exhaustive_small_space", f"all {len(items)} strings of length <= {maxlen} over {alphabet!r}: parse + authenticate, model vs implementation")
+
+
 # ------------------------------------------------------------------------------------------ O
 
 
@@ -700,6 +714,8 @@ def run(ctx: Any) -> None:
         else:
             small.append(mutate(rng, rng.choice(rendered)))
     k_small(ctx, [s for s in small if no_surrogates(s)])
+
+    k_exhaustive(ctx, 5 if (ctx.tier == "thorough" or ctx.deep) else 4)
 
     # ---- O2 injection -------------------------------------------------------------------------------
     for i in range(n_inject):
